@@ -15,7 +15,7 @@ Canonical form
                ('assign', op, l, r) ('comma', a, b) ('cast', type, e) ('call', callee, (args..))
                ('sizeof_e', e) ('sizeof_t', type) ('stmtexpr', (items..))
                ('index', a, i) ('member', a, name) ('arrow', a, name)
-  statements   ('block', (items..)) ('expr', e) ('empty',) ('decl', type, quals, ((name, type, init|None)..))
+  statements   ('block', (items..)) ('expr', e) ('empty',) ('decl', quals, ((name, type, init|None)..))
                ('if', c, then, else|None) ('for', init|None, cond|None, step|None, body)
                ('while', c, body) ('do', body, c) ('switch', e, body) ('case', e, s) ('default', s)
                ('label', name, s) ('break',) ('continue',) ('goto', name) ('return', e|None)
@@ -265,11 +265,7 @@ def x_sub_routine(t):
     if not t.children:
         raise Unknown("sub_routine without children")
     name = lexpr(t.children[0])
-    args = _args(t.children[1:])
-    if name == ("id", "sizeof") and len(args) == 1:
-        # `sizeof(x)`: IDENTIFIER also matches the keyword; same information as SIZEOF unary_expr
-        return ("sizeof_e", args[0])
-    return ("call", name, args)
+    return ("call", name, _args(t.children[1:]))
 
 
 def x_macro(t):
@@ -388,7 +384,7 @@ def _init_declarators(x, base):
 def s_declaration(t):
     _n(t, 2)
     base, quals = lark_type(t.children[0])
-    return ("decl", base, quals, tuple(_init_declarators(t.children[1], base)))
+    return ("decl", quals, tuple(_init_declarators(t.children[1], base)))
 
 
 def s_block_item(t):
@@ -633,7 +629,8 @@ class RefCanon:
         if k in ("empty", "break", "continue"):
             return (k,)
         if k == "decl":
-            return ("decl", canon_type(x[1]), tuple(x[2]), tuple((n, canon_type(t), None if i is None else self.e(i)) for (n, i, t) in x[3]))
+            # the declared type is kept per declarator (cparse folds a leading `*` into its base type)
+            return ("decl", tuple(x[2]), tuple((n, canon_type(t), None if i is None else self.e(i)) for (n, i, t) in x[3]))
         if k == "if":
             return ("if", self.e(x[1]), self.s(x[2]), None if x[3] is None else self.s(x[3]))
         if k == "for":
